@@ -67,6 +67,7 @@ func apiNondetIntIn(fr *frame, a []value) value {
 	}
 	t := i.st.Var(smt.BV(64), "int")
 	i.nondets = append(i.nondets, NondetRec{Kind: "int", Term: t})
+	i.st.SetRange(t, lo, hi)
 	c := i.st.And(i.st.BVCmp("bvsge", t, i.st.Const(smt.BV(64), uint64(lo))), i.st.BVCmp("bvsle", t, i.st.Const(smt.BV(64), uint64(hi))))
 	i.solver.Assert(i.st, c)
 	return &sym{t}
